@@ -122,3 +122,19 @@ def poisoned(modnames, which=0):
 def has_poison(arr):
     a = np.ascontiguousarray(arr, dtype=np.float64).view(np.uint64)
     return bool(np.isin(a, np.array(POISONS, dtype=np.uint64)).any())
+
+
+def run_cli(main, argv):
+    """Drive a console entry point in-process: returns ('ok', None) | ('exit', code) | ('exc', exception)."""
+    import sys
+    old = sys.argv
+    sys.argv = list(argv)
+    try:
+        main()
+        return "ok", None
+    except SystemExit as e:
+        return ("ok", None) if e.code in (None, 0) else ("exit", e.code)
+    except Exception as e:      # noqa
+        return "exc", e
+    finally:
+        sys.argv = old
